@@ -277,9 +277,9 @@ fn col_op() -> impl Strategy<Value = ColOp> {
 
 /// Most writes of one history use one value formula (`main`), so that columns usually have a dominant type
 /// (the code compresses only then); the rest keep their own formula (mixed-type columns).
-fn col_case() -> impl Strategy<Value = ColCase> {
+fn col_case(max_ops: usize) -> impl Strategy<Value = ColCase> {
     let seed = (proptest::bool::weighted(0.8), 0..ID_SPACE, range_len());
-    (mode(), 0u8..3, proptest::collection::vec((col_op(), proptest::bool::weighted(0.7)), 1..10), valgen(), any::<bool>(), seed).prop_map(
+    (mode(), 0u8..3, proptest::collection::vec((col_op(), proptest::bool::weighted(0.7)), 1..max_ops), valgen(), any::<bool>(), seed).prop_map(
         |(mode, id_base, ops, main, finish_decompress, (seeded, start, n))| {
             // 80 % of the histories start by filling the column (otherwise most compress calls find nothing to do)
             let first = seeded.then_some(ColOp::SetRange { start, n: n.max(8), g: main });
@@ -538,9 +538,9 @@ fn store_op() -> impl Strategy<Value = StoreOp> {
     ]
 }
 
-fn store_case() -> impl Strategy<Value = StoreCase> {
+fn store_case(max_ops: usize) -> impl Strategy<Value = StoreCase> {
     let seed = (proptest::bool::weighted(0.8), 0..ID_SPACE, range_len(), 0u8..3);
-    (mode(), any::<bool>(), 0u8..3, proptest::collection::vec((store_op(), proptest::bool::weighted(0.7)), 1..10), [valgen(), valgen(), valgen()], any::<bool>(), seed)
+    (mode(), any::<bool>(), 0u8..3, proptest::collection::vec((store_op(), proptest::bool::weighted(0.7)), 1..max_ops), [valgen(), valgen(), valgen()], any::<bool>(), seed)
         .prop_map(|(mode, via_setter, id_base, ops, main, finish_decompress, (seeded, start, n, key))| {
             // one main value formula per key; 80 % of the histories start by filling one column (see col_case)
             let first = seeded.then_some(StoreOp::SetRange { start, n: n.max(8), key, g: main[key as usize] });
@@ -869,6 +869,8 @@ fn propstore(c: &StoreCase) -> CaseResult {
 }
 
 pub fn register(r: &mut Run) {
-    r.subcheck("propcol", r.cases(3_000, 150_000), col_case, propcol);
-    r.subcheck("propstore", r.cases(2_000, 100_000), store_case, propstore);
+    // thorough: longer histories (more compress / decompress / overwrite interleavings per column)
+    let max_ops = if r.is_thorough() { 18 } else { 10 };
+    r.subcheck("propcol", r.cases(3_000, 150_000), move || col_case(max_ops), propcol);
+    r.subcheck("propstore", r.cases(2_000, 100_000), move || store_case(max_ops), propstore);
 }
